@@ -55,6 +55,9 @@ CLAIMS["C10"] = dict(technique="Lean 4 refinement proof + closed-form lemmas for
 CLAIMS["C11"] = dict(technique="Lean 4 proofs for every state of the server model: reject-unknown, session-clean, no-leak, frame (non-interference of client records); per-client specification monitor on implementation histories",
     text="Proved for every state: a send to a client without a live session is rejected with no effect; after a disconnect the client's record is the initial one and it has no timer; a later session with the same id starts from the initial per-client state; an event naming client c leaves every other client's record (queue, pending id, context) equal. The per-client specification (isolation by construction) runs over every implementation history of sdisp and l3s (with and without application handlers). Conclusion-on-disconnect happens in the protocol layer (fix b4d2189 made it unconditional).",
     note=DISP_NOTE, **_D)
+CLAIMS["C13"] = dict(technique="Lean 4 invariant proof over every history of the connection-table model (induction over events, per-id callback protocol as a checker function); differential histories on a real server on loopback with raw gorilla clients; concurrent burst monitor with per-connection identity",
+    text="Proved for every history of connects, duplicate connects, client closes, TCP drops, StopConnection, writes and Stop (fresh client handles): at most one live connection per id; per id the callbacks alternate new, disconnected, new, ... starting with new (one new-client callback per accepted connection, one disconnected callback when it ends, in that order); the reported set equals the live set; a duplicate is refused with 1008 and leaves every entry untouched; Stop ends all. Granularity: one event to completion. One defect below that granularity was found by the burst monitor and repaired (75f8895: disconnected before new-client callback).",
+    note=BASE_NOTE + "Concurrency inside wsHandler/cleanup is tied by fingerprints and searched by ws_burst, not proved.", **_D)
 CLAIMS["C14"] = dict(technique="Lean 4 proof of the admission decision stated outright (any supported / requested lists, arbitrary handler functions, any credentials, id, origin), negotiation loop proved by induction; differential: real handshakes on loopback against freshly configured real servers",
     text="Proved: a handshake is admitted iff the auth handler (if set) accepts well-formed basic-auth credentials, the check-client handler (if set) returns true, gorilla's upgrade preconditions hold, the origin check passes, a sub-protocol is negotiable (a non-empty requested one, supported if the server lists any) and the id is not already connected; what is negotiated is the first such protocol in the client's order; a refused client gets HTTP 400/401/403 or close 1002/1008 and triggers no new-client and no message callback; an admitted one triggers exactly one new-client callback. One defect found by this check was repaired (d5ec4cf: empty list element in the sub-protocol header).",
     note=BASE_NOTE + "gorilla's Upgrade and net/http are trusted dependencies (modelled, differentially exercised).", **_D)
